@@ -496,6 +496,10 @@ def run_shard(params, tier, acc):
                                       for a, b in h + [(v, op)]),
                             size=len(h) + 1)
                     acc.outcome(op[0] + (":err" if problems else ""))
+                    if level == depth and acc.transitions % 20011 == 0:
+                        acc.sample(dict(length=length, history=[
+                            "v%d.%s" % (a, fmt(b)) for a, b in h + [(v, op)]],
+                            state=repr(after)[:200]))
                     if after not in seen:
                         seen.add(after)
                         acc.states += 1
